@@ -1563,6 +1563,77 @@ def check_ctor_sites(rep, F, gens, methods=None, only=None):
     return counts
 
 
+# names the generated module may bring into the scope in which the user's expressions (bounds, closures,
+# defaults, function paths) are spliced; anything else defined or imported there shadows the user's own item
+# of that name, because items and explicit imports of a module win over its `use super::*`
+HYGIENE_IMPORTS = {
+    'Display': 'pre-existing `use ::core::fmt::Display` of string/any parse errors; a trait name, reachable only through a user item literally called Display inside a spliced expression',
+}
+
+
+def has_user_tokens(F, fn):
+    """does the body of this generated function contain tokens the user wrote (spliced expressions)?"""
+    def walk(x, top):
+        if isinstance(x, dict):
+            if x.get('usp'):
+                return True
+            for k, v in x.items():
+                if k in ('sp', 'fsp') and isinstance(v, str) and not v.startswith('!'):
+                    return True
+                if k == 'span' and not top and isinstance(v, str) and not v.startswith('!') and x.get('kind') == 'closure':
+                    return True
+                if isinstance(v, (dict, list)) and walk(v, False):
+                    return True
+        elif isinstance(x, list):
+            return any(walk(v, False) for v in x)
+        return False
+    if walk(fn, True):
+        return True
+    # closures written inside it (their bodies are separate functions)
+    return any(c['kind'] == 'Closure' and c['path'].startswith(fn['path'] + '::') and not c['span'].startswith('!') for c in F.fns.values())
+
+
+def check_hygiene(rep, g):
+    """R-HYGIENE: the generated module defines and imports no name a spliced user expression could mean"""
+    F = g.F
+    allowed = {g.name, g.name + 'Error', g.name + 'ParseError'}
+    n = 0
+    for it in F.items:
+        if it['scope'] == 'fn':
+            # an item local to a generated function body shadows the same name in whatever is spliced into that body
+            if it['module'] == g.modpath and it['span'].startswith('!'):
+                nm = it['name']
+                owner = [fn for fn in g.fns if fn['path'] == it['owner']]
+                if owner and not any(has_user_tokens(F, fn) for fn in owner):
+                    continue   # nothing of the user's is spliced into that body
+                rep.ob('R-HYGIENE', nm.startswith('__') or nm == '_', g, f'item `{nm}` ({it["kind"]}) local to generated `{it["owner"]}` is `__`-prefixed; '
+                       'any other name would capture the same name in an expression spliced into that body', {'item': nm, 'kind': it['kind']})
+            continue
+        if it['module'] != g.modpath:
+            continue
+        n += 1
+        nm = it['name']
+        ok = nm in allowed or nm.startswith('__') or nm == '_'
+        rep.ob('R-HYGIENE', ok, g, f'item `{nm}` ({it["kind"]}) defined in the generated module is the type, one of its error types, or `__`-prefixed; '
+               'any other name would capture the same name in bounds, closures and defaults spliced next to it', {'item': nm, 'kind': it['kind']})
+    rep.ob('R-HYGIENE', n >= 1, g, 'the items of the generated module were found', {})
+    for u in F.uses:
+        if u['module'] != g.modpath:
+            continue
+        if u['ukind'] == 'Glob':
+            tg = [t['path'] for t in u['targets']]
+            par = ''   # `super` of the generated module: the nearest enclosing module (a function body is not one)
+            for m in F.mods:
+                if m['path'] and g.modpath.startswith(m['path'] + '::') and len(m['path']) > len(par) and m['path'] != g.modpath:
+                    par = m['path']
+            rep.ob('R-HYGIENE', tg == [par] or (not u['targets']), g, 'the only glob import of the generated module is `use super::*`', {'targets': tg})
+            continue
+        for t in u['targets']:
+            nm = u.get('name') or t['path'].split('::')[-1]
+            ok = nm in HYGIENE_IMPORTS or nm.startswith('__') or nm == '_'
+            rep.ob('R-HYGIENE', ok, g, f'explicit import `{t["path"]}` in the generated module is in the frozen table; any other would shadow the user\'s item of that name', {'import': t['path']})
+
+
 def check_no_bypass(rep, g):
     """R-MUT / R-IMPLSET / R-VIS / new_unchecked discipline for one declaration"""
     d = g.d
